@@ -30,7 +30,8 @@ CaseOf(r) ==
     CASE r.part = "req"  -> [part |-> "req", p |-> r.p, enc |-> r.enc, n |-> r.n, ctr0 |-> r.ctr0]
       [] r.part = "resp" -> [part |-> "resp", m |-> r.m, st |-> r.st, short |-> r.short, split |-> r.split, fault |-> r.fault,
                              fpos |-> r.fpos, enc |-> r.enc, ctr0 |-> r.ctr0]
-      [] r.part = "coap" -> [part |-> "coap", items |-> ToItems(r)]
+      [] r.part = "coap" -> [part |-> "coap", items |-> ToItems(r), ids |-> << >>, api |-> "read"]
+      [] r.part = "coapmap" -> [part |-> "coap", items |-> ToItems(r), ids |-> r.ids, api |-> r.api]
 
 TInit ==
     /\ tid \in 1..Len(Recs)
@@ -44,6 +45,7 @@ TInit ==
               /\ cs = CaseOf(r)
               /\ pc = "decode" /\ frags = << >> /\ eoff = 0 /\ kctr = 0 /\ air = << >>
               /\ acc = NullAcc /\ rd = NullRd /\ co = [NullCo EXCEPT !.req = r.reqtids]
+         [] r.part = "coapmap" -> CoapInit(CaseOf(r))
 TNext == Next /\ UNCHANGED tid
 TSpec == TInit /\ [][TNext]_tvars
 
@@ -58,9 +60,18 @@ RespConforms == (cs.part = "resp" /\ pc \in {"done", "rejected"}) => RespSame(Re
 CoapSame(r, res) ==
     /\ Len(r.res) = Len(res)
     /\ \A i \in 1..Len(res) : r.res[i] = IF res[i].k = "ok" THEN <<"ok", 0, res[i].item, res[i].len>> ELSE <<"fail", 0, 0, 0>>
-CoapConforms == (cs.part = "coap" /\ pc = "done") => CoapSame(Recs[tid], co.res)
+CoapConforms == (Recs[tid].part = "coap" /\ pc = "done") => CoapSame(Recs[tid], co.res)
 \* the request carried one item per requested characteristic
-CoapRequestShape == cs.part = "coap" => Len(co.req) = Len(cs.items)
+CoapRequestShape == Recs[tid].part = "coap" => Len(co.req) = Len(cs.items)
+\* "coapmap": a batch whose list names a characteristic more than once, through the connection API; the record holds
+\* the returned dictionary per distinct characteristic: << >> no entry, <<"ok", item whose body it is, length>>,
+\* <<"fail", 0, 0>>.  Accepted iff every characteristic has the result of one of its own items (IdAttributed).
+RecEntry(c, L, e) ==
+    IF e = << >> THEN EntryAllowed(c, L, << >>)
+    ELSE \E i \in Own(c, L) :
+            IF Expected(c, i).k = "ok" THEN c.api = "read" /\ e = <<"ok", i, Expected(c, i).len>> ELSE e = <<"fail", 0, 0>>
+RecMapAccepted(c, m) == Len(m) = NLabels(c) /\ \A L \in 1..NLabels(c) : RecEntry(c, L, m[L])
+CoapMapConforms == Recs[tid].part = "coapmap" => RecMapAccepted(cs, Recs[tid].map)
 
 \* ---------------------------------------------------------------------- every rejected record at once
 \* (the invariants stop at the first one).  Whole runs as functions of the same step operators.
@@ -79,6 +90,7 @@ Accepted(r) ==
            LET f == RdRun(c, [pc |-> "first", kctr |-> c.ctr0, rd |-> NullRd]) IN
            /\ f.pc \in {"done", "rejected"}
            /\ RespSame(r, f.pc, f.kctr, f.rd)
+      [] r.part = "coapmap" -> RecMapAccepted(c, r.map)
       [] r.part = "coap" ->
            /\ Len(r.reqtids) = Len(c.items)
            /\ LET d == CoRun(c, [pc |-> "decode", co |-> [NullCo EXCEPT !.req = r.reqtids]]) IN
